@@ -1,7 +1,112 @@
+import Lean.Data.Json
 import Driver.Util
-/-! Line-protocol driver for C19 (not built yet). -/
+import GqlgenVerif.Model.Rewrite
+import GqlgenVerif.Model.RewriteSpec
+/-!
+Line-protocol driver for C19. Every input line is `<op> <json>`, the JSON being one observation of the Go
+harness (go/harness/c19): `{layout, before:[file], schema:[obj], after:[file]}`.
+
+  regen <obs>  → JSON: the model's prediction of the regenerated files (methods, objects, reserved and
+                 pruned imports, leftover text, how the WARNING block is written, lexical validity of the tail)
+  chk <obs>    → JSON list of Spec violations of the implementation's own output (`[]` = property holds)
+  gen          → the regenerated constants (Gen/RewriteOffsets.lean) as JSON
+-/
+open Lean GqlgenVerif.Rewrite GqlgenVerif.Gen.RewriteOffsets
 namespace Driver.C19
-def step (_line : String) : String := "bad-op"
+
+def str (j : Json) (k : String) : String := (j.getObjValAs? String k).toOption.getD ""
+def boolD (j : Json) (k : String) (d : Bool) : Bool := (j.getObjValAs? Bool k).toOption.getD d
+def arr (j : Json) (k : String) : List Json :=
+  match j.getObjVal? k with
+  | .ok (.arr a) => a.toList
+  | _ => []
+def txt (j : Json) (k : String) : Text := (str j k).toList
+
+def toImport (j : Json) : Import := ⟨str j "alias", str j "path", str j "pkg"⟩
+
+def toDecl (j : Json) : Decl :=
+  { isFunc := str j "kind" == "func", tok := if str j "kind" == "func" then "" else str j "tok",
+    recv := str j "recv", name := str j "name", doc := txt j "doc", specDoc := txt j "specDoc",
+    namedV := str j "namedV", namedE := str j "namedE", hdr := txt j "hdr", inner := txt j "inner",
+    hasBody := boolD j "hasBody" false }
+
+def toFile (j : Json) : File :=
+  { name := str j "name", imports := (arr j "imports").map toImport, decls := (arr j "decls").map toDecl }
+
+def toAfter (j : Json) : Spec.AfterFile :=
+  { file := toFile j, remaining := txt j "remaining", parseOK := boolD j "parseOK" false,
+    used := (arr j "used").filterMap fun x => x.getStr?.toOption }
+
+def toField (j : Json) : Field := ⟨str j "goName", str j "name", str j "file", boolD j "isResolver" false⟩
+def toObj (j : Json) : Obj := ⟨str j "name", str j "file", (arr j "fields").map toField⟩
+
+def toCfg (j : Json) : Cfg := { layout := if str j "layout" == "single" then .single else .follow }
+
+def s (t : Text) : Json := Json.str (String.ofList t)
+
+def importJson (i : Import) : Json :=
+  Json.mkObj [("alias", i.alias), ("path", i.path), ("local", printedLocal i)]
+
+def methodJson (m : NewMethod) : Json :=
+  Json.mkObj [("recv", m.recv), ("name", m.name), ("doc", s m.doc), ("namedV", m.namedV), ("namedE", m.namedE),
+              ("impl", s m.impl), ("hasPrev", m.hasPrev)]
+
+def modeOf (rem : Text) : String :=
+  if rem == [] then "none"
+  else match trailerMode with
+    | .blockAlways => "block"
+    | .lineWhenBlockEnd => if hasInfix blockEnd rem then "line" else "block"
+
+def regen (j : Json) : Json :=
+  let cfg := toCfg j
+  let before := (arr j "before").map toFile
+  let sch := (arr j "schema").map toObj
+  let after := (arr j "after").map toAfter
+  let out := regenerate cfg before sch
+  Json.arr (out.map fun nf =>
+    let used := match after.find? (·.file.name == nf.name) with
+      | some a => a.used
+      | none => []
+    Json.mkObj [
+      ("name", nf.name), ("hasRoot", nf.hasRoot),
+      ("reserved", Json.arr (nf.imports.map importJson).toArray),
+      ("pruned", Json.arr ((prune used nf.imports).map importJson).toArray),
+      ("methods", Json.arr (nf.methods.map methodJson).toArray),
+      ("objects", Json.arr (nf.objects.map Json.str).toArray),
+      ("remaining", s nf.remaining),
+      ("remMode", modeOf nf.remaining),
+      ("validTail", validTail (trailer trailerMode nf.remaining))]).toArray
+
+def violJson : Spec.Violation → Json
+  | .notValidGo f => Json.mkObj [("kind", "not-valid-go"), ("file", f)]
+  | .method r n w => Json.mkObj [("kind", "method"), ("recv", r), ("name", n), ("what", w)]
+  | .importLost f a p => Json.mkObj [("kind", "import-lost"), ("file", f), ("alias", a), ("path", p)]
+  | .declLost f i n => Json.mkObj [("kind", "decl-lost"), ("file", f), ("idx", i), ("name", n)]
+  | .fileGone f => Json.mkObj [("kind", "file-gone"), ("file", f)]
+
+def chk (j : Json) : Json :=
+  let cfg := toCfg j
+  let before := (arr j "before").map toFile
+  let sch := (arr j "schema").map toObj
+  let after := (arr j "after").map toAfter
+  Json.arr ((Spec.violations cfg before sch after).map violJson).toArray
+
+def genJson : Json :=
+  Json.mkObj [("bodyStartOff", bodyStartOff), ("bodyEndOff", bodyEndOff), ("skipCopied", skipCopied),
+              ("skipToks", Json.arr (skipToks.map Json.str).toArray), ("declSep", declSep),
+              ("trimRemaining", trimRemaining), ("trailerMode", toString (repr trailerMode))]
+
+def step (line : String) : String :=
+  let (op, rest) := match line.splitOn " " with
+    | [] => ("", "")
+    | o :: r => (o, " ".intercalate r)
+  if op == "gen" then genJson.compress
+  else match Json.parse rest with
+    | .error e => "bad-json " ++ e
+    | .ok j =>
+      if op == "regen" then (regen j).compress
+      else if op == "chk" then (chk j).compress
+      else "bad-op"
 end Driver.C19
 
 def main : IO Unit := do
